@@ -218,6 +218,15 @@ def run(tier, seed, scale=1.0):
                 os.unlink(exe)
             except OSError:
                 pass
+    # third leg: the same machinery through a real blackbox target, dump file and qb_log_blackbox_print_from_file
+    from checks import c15
+    bexe = c15.bbtool()
+    nbb = int((80 if tier == "quick" else 4000) * scale)
+    bres = runner.run_cases(bexe, seed, nbb, args=["--mode", "roundtrip"], timeout=900)
+    v.add_result(bres, "blackbox", bexe)
+    for h in bres.hangs:
+        v.add_violation("hang:bbtool-roundtrip", h)
+    total.absorb(bres)
     cov = {"evaluations": total.evaluations, "distinct_nontrivial": len(total.distinct), "rule": RULE,
            "samples": total.samples[:8], "monitor_counters": total.counters,
            "sanitizer_reports": total.sanitizer_reports, "batches": nb}
@@ -230,8 +239,13 @@ def run(tier, seed, scale=1.0):
 
 def replay(rep):
     w = rep["witness"]
-    exe = batch_exe(w["seed"], w.get("batch", 0))
-    res = runner.run_cases(exe, w["seed"], 1, first=w["case"], workers=1)
+    if w.get("stage") == "blackbox":
+        from checks import c15
+        exe = c15.bbtool()
+        res = runner.run_cases(exe, w["seed"], 1, args=["--mode", "roundtrip"], first=w["case"], workers=1)
+    else:
+        exe = batch_exe(w["seed"], w.get("batch", 0))
+        res = runner.run_cases(exe, w["seed"], 1, first=w["case"], workers=1)
     for x in res.violations:
         print("REPLAY", x["key"], x["detail"][:400])
     hit = any(x["key"] == rep["key"] for x in res.violations)
